@@ -8,8 +8,26 @@ func (p *Path) makeSymSlice(elem types.Type, n *Term, capv Value) Value {
 	panic(unsupported{"make with symbolic length"})
 }
 
+// blobSlice: only the identity slice b[0:] / b[0:len(b)] is supported.
 func (p *Path) blobSlice(b *Blob, lo, hi, max Value) Value {
-	panic(unsupported{"slicing a blob"})
+	isZero := func(v Value) bool {
+		if v == nil {
+			return true
+		}
+		t, ok := v.(*Term)
+		return ok && t.IsConst() && t.K == 0
+	}
+	isLen := func(v Value) bool {
+		if v == nil {
+			return true
+		}
+		t, ok := v.(*Term)
+		return ok && t == b.Len
+	}
+	if isZero(lo) && isLen(hi) && (max == nil || isLen(max)) {
+		return b
+	}
+	panic(unsupported{"slicing a blob (other than the whole of it)"})
 }
 
 func (p *Path) blobAppend(b *Blob, add Value) Value {
